@@ -415,6 +415,30 @@ impl Env {
                 let r = Self::eval_res(execute(&text, c));
                 Res::Many(vec![r, self.dump(&keep())])
             }
+            Op::ExecSole { prog, slot } => {
+                let text = prog.text();
+                let mut c = self.slot(*slot);
+                // from here on the slot hands out upgrades of a Weak handle; the strong sharer is dropped
+                let weak = Arc::downgrade(&c.0);
+                let weak_sharer: Sharer = Box::new(move || {
+                    let mut n = Context::new();
+                    n.0 = weak.upgrade().expect("the evaluating context is alive while its evaluation runs");
+                    n
+                });
+                let old = std::mem::replace(&mut self.slots.lock().unwrap()[*slot], Arc::new(weak_sharer));
+                drop(old);
+                // (a panic of the evaluation passes through here: the slot gets its strong sharer back first)
+                let r = std::panic::catch_unwind(std::panic::AssertUnwindSafe(|| match parse_expression(&text) {
+                    Ok(ast) => Self::eval_res(ast.exec(&mut c)),
+                    Err(e) => Res::E(e.to_string()),
+                }));
+                self.slots.lock().unwrap()[*slot] = Arc::new(sharer(&c));
+                let r = match r {
+                    Ok(r) => r,
+                    Err(p) => std::panic::resume_unwind(p),
+                };
+                Res::Many(vec![r, self.dump(&c)])
+            }
             Op::Parse { prog } => {
                 let text = prog.text();
                 match parse_expression(&text) {
